@@ -305,6 +305,10 @@ def run_history(res, cfg, scratch, rng, tier, strace_budget):
         n_ops = rng.randint(3, 6)
         for step in range(n_ops):
             op = gen_write_op(rng, s.model, prof)
+            if rng.random() < 0.4 and s.model.points:
+                with quiet_stdout():
+                    s.do({"op": rng.choice(["get", "contains"]), "q": ("cmp", "measurement", (), "==", rng.choice(["m0", "m1", "_default"]))})
+                res.count("early_terminating_reads_before_op")
             if op["op"] in MUTATORS:
                 r = sweep_op(res, s, op, scratch, rng, tier)
                 if r is False:
